@@ -446,7 +446,7 @@ def selftest(ctx, traces):
             if jobs:
                 break
     for t in traces:
-        if t["ev"][0]["e"] == "call":
+        if t["ev"][0]["e"] == "call" and not any(e["e"] == "unknown-log-line" for e in t["ev"]):
             ks = [k for k, e in enumerate(t["ev"]) if e["e"] == "s"]
             if ks:
                 k = ks[len(ks) // 2]
